@@ -155,6 +155,11 @@ def run_debouncer(b: Batch, cfg, instr=None, hold_plan=None):
         return
     delivered = [e for x in batches for e in x["events"]]
     ids = [id(e) for e in delivered]
+    known = {id(e) for e, _, _ in handled}
+    phantom = [e.src_path for e in delivered if id(e) not in known]
+    if phantom:
+        b.violation("debouncer-phantom-event", f"the callback received events that were never handed to this debouncer: {phantom[:4]}", witness=wit, replay_spec=rs)
+        return
     if len(ids) != len(set(ids)):
         b.violation("debouncer-duplicate", "an event appears in two batches", witness=wit, replay_spec=rs)
     order = [e for e, _, _ in handled if id(e) in set(ids)]
@@ -184,6 +189,63 @@ def run_debouncer(b: Batch, cfg, instr=None, hold_plan=None):
         b.nontrivial(["deb", cfg, hold_plan])
     if len(b.samples) < 1 and len(batches) >= 1:
         b.sample({"debouncer": cfg, "batches": [[e.src_path for e in x["events"]] for x in batches]})
+
+
+def run_stop_vs_start(b: Batch, what, mode, r):
+    """stop() before start() / racing start() of a helper thread (EventDebouncer, ProcessWatcher): the stop request must not
+    be forgotten - the thread ends and nothing is delivered afterwards."""
+    from watchdog.utils.event_debouncer import EventDebouncer
+    from watchdog.utils.process_watcher import ProcessWatcher
+
+    delivered = []
+    if what == "debouncer":
+        th = EventDebouncer(0.01, lambda evs: delivered.append(("batch", len(evs))))
+    else:
+        class _P:  # a child that has already ended
+            def poll(self):
+                return 0
+
+        th = ProcessWatcher(_P(), lambda: delivered.append(("terminated", 1)))
+    rs = {"kind": "svs1", "what": what, "mode": mode}
+    b.case()
+    b.count("stop_vs_start_cases")
+    if mode == "stop_then_start":
+        th.stop()
+        th.start()
+    else:
+        bar = threading.Barrier(2)
+
+        def a():
+            bar.wait()
+            th.start()
+
+        def c():
+            bar.wait()
+            if mode == "race_late":
+                time.sleep(r.choice([0.0, 0.0002, 0.001]))
+            th.stop()
+
+        ts = [threading.Thread(target=a, name="wdv-starter", daemon=True), threading.Thread(target=c, name="wdv-stopper", daemon=True)]
+        for t in ts:
+            t.start()
+        for t in ts:
+            t.join(5)
+    t_stopped = time.monotonic()
+    if what == "debouncer":
+        try:
+            th.handle_event(mk_event(0))
+        except Exception:  # noqa: BLE001
+            pass
+    th.join(3.0)
+    b.nontrivial(["svs", what, mode, r.random()])
+    if th.is_alive():
+        stuck, stack = parked_untimed(th)
+        b.violation("helper-thread-ignores-stop-before-start", f"{what}: stop() was requested ({mode}) but the thread is still running 3 s later", witness=dict(rs, stack=stack), replay_spec=rs)
+        th.stop()
+        return
+    time.sleep(0.03)
+    if what == "debouncer" and delivered:
+        b.violation("debouncer-callback-after-stop", f"{what}: {delivered} delivered although stop() had been requested before ({mode})", witness=rs, replay_spec=rs)
 
 
 # ================================================================================================ auto restart
@@ -233,8 +295,29 @@ def run_autorestart(b: Batch, inst, cfg, instr=None, hold_plan=None):
         stop_rec["ret"] = proctable.stamp()
         stop_rec["live_at_ret"] = table.live_now()
 
+    import watchdog.tricks as _tricks
+
+    real_pw = _tricks.ProcessWatcher
+    if cfg.get("watcher_fail_at"):
+        # the watcher thread of the nth child cannot be started (thread limit reached at that moment): the child that was
+        # just spawned must still be known to the trick (stopped by the next restart / by stop())
+        nth = {"n": 0}
+
+        class FailingWatcher(real_pw):
+            def start(self):
+                nth["n"] += 1
+                if nth["n"] == cfg["watcher_fail_at"]:
+                    b.count("watcher_start_failures_injected")
+                    raise RuntimeError("can't start new thread")
+                super().start()
+
+        _tricks.ProcessWatcher = FailingWatcher
     try:
-        trick.start()
+        try:
+            trick.start()
+        except RuntimeError:
+            if not cfg.get("watcher_fail_at"):
+                raise
         if hold_plan is not None:
             hold = instr.add_hold(Hold(hold_plan["role"], hold_plan["qualname"], hold_plan["line"], nth=hold_plan.get("nth", 1), timeout=4.0))
         ev_thread = None
@@ -245,7 +328,14 @@ def run_autorestart(b: Batch, inst, cfg, instr=None, hold_plan=None):
                 # one delivering thread at a time (the observer's dispatcher)
                 if ev_thread is not None:
                     ev_thread.join(8)
-                ev_thread = threading.Thread(target=lambda e=e: trick.dispatch(e), name="wdv-events", daemon=True)
+                def deliver(e=e):
+                    try:
+                        trick.dispatch(e)
+                    except RuntimeError:
+                        if not cfg.get("watcher_fail_at"):
+                            raise
+
+                ev_thread = threading.Thread(target=deliver, name="wdv-events", daemon=True)
                 ev_thread.start()
                 if hold is None:
                     ev_thread.join(8)
@@ -281,6 +371,7 @@ def run_autorestart(b: Batch, inst, cfg, instr=None, hold_plan=None):
             stop_thread.start()
         stop_thread.join(10)
     finally:
+        _tricks.ProcessWatcher = real_pw
         if instr is not None:
             instr.clear_holds()
     wit = dict(rs, table=table.log[-40:], stop=stop_rec)
@@ -295,7 +386,11 @@ def run_autorestart(b: Batch, inst, cfg, instr=None, hold_plan=None):
         else:
             b.inconc("AutoRestartTrick.stop() slow")
         return
-    if stop_rec.get("exc"):
+    if stop_rec.get("exc") and cfg.get("watcher_fail_at") and "cannot join thread before it is started" in stop_rec["exc"]:
+        # the watcher whose start() failed is joined at the very end of stop(), after the child has been dealt with: the error
+        # escaping there is outside what the statement promises; the child / thread audits below still apply
+        b.count("stop_raised_after_injected_watcher_failure")
+    elif stop_rec.get("exc"):
         b.violation("autorestart-stop-raised", f"AutoRestartTrick.stop() raised {stop_rec['exc']}", witness=wit, replay_spec=rs)
     peak = audit_table(b, table, rs, wit, "autorestart")
     spawns_before_stop = [r for r in table.log if r["what"] == "spawn" and r["t"] < stop_rec["ret"]]
@@ -413,7 +508,10 @@ def auto_cfg(r):
             script.append(("wait", r.choice([0.0, 0.01, 0.05, 0.12])))
     if r.random() < 0.3:
         script.insert(r.randrange(len(script) + 1), ("stop_async",))
-    return {"debounce": debounce, "restart_on_exit": r.random() < 0.6, "behaviours": beh, "script": script, "kill_after": r.choice([1, 10])}
+    cfg = {"debounce": debounce, "restart_on_exit": r.random() < 0.6, "behaviours": beh, "script": script, "kill_after": r.choice([1, 10])}
+    if debounce == 0 and r.random() < 0.2 and not any(s[0] == "stop_async" for s in script):
+        cfg["watcher_fail_at"] = r.randint(1, max(1, n_events))
+    return cfg
 
 
 def quiescent_cfg(r):
@@ -491,10 +589,12 @@ def run_batch(spec):
         k = spec["kind"]
         r = rng_for(spec.get("seed", 0), "C18", k, spec.get("j", 0))
         if k == "deb":
-            for _ in range(spec["n"]):
+            for n_ in range(spec["n"]):
                 if b.expired():
                     break
                 run_debouncer(b, deb_cfg(r))
+                if n_ % 3 == 0:
+                    run_stop_vs_start(b, r.choice(["debouncer", "watcher"]), r.choice(["stop_then_start", "race", "race_late"]), r)
         elif k == "auto":
             for n in range(spec["n"]):
                 if b.expired():
@@ -560,6 +660,9 @@ def run_batch(spec):
                                     hp["linger"] = 0.25
                                     hp["nth"] = 1
                                 run_autorestart(b, inst, cfg, ins, hp)
+        elif k == "svs1":
+            for _ in range(50):
+                run_stop_vs_start(b, spec["what"], spec["mode"], r)
         elif k == "deb1":
             if spec.get("hold"):
                 ins = instr_tricks(1)
